@@ -1,6 +1,6 @@
 From Coq Require Import extraction.Extraction extraction.ExtrOcamlBasic.
-From TU Require Import Base C08_Model Pipeline_Model C08_Pipeline Pipeline_Tasks C08_Bytes.
-Definition run := run_C08y.
+From TU Require Import Base C08_Model Pipeline_Model C08_Pipeline Pipeline_Tasks C08_Bytes Pipeline_Spell.
+Definition run := run_C08z.
 Definition check := check_C08y.
 Definition agree := agree_C08y.
 Extraction "model.ml" run check agree.
